@@ -38,6 +38,10 @@ type conn struct {
 // ErrClosed represents a error.
 var ErrClosed = errors.New("network closed")
 
+// errIndexInUse is returned by store when the request number is still held by
+// a pending call: the number has 15 bits and comes round after 32768 calls.
+var errIndexInUse = errors.New("request index is still in use by a pending call")
+
 func dial(ctx context.Context) (net.Conn, error) {
 	u := core.GetClientContext(ctx).URL
 	var d net.Dialer
@@ -69,7 +73,13 @@ func (c *conn) store(index int, resultChan chan data) (err error) {
 	c.lock.Lock()
 	// a call that arrives after Close has swept the table would never be told
 	if err = c.closed; err == nil {
-		c.results[index] = resultChan
+		// the entry of a call that is still waiting is not replaced: its
+		// response would be handed to the new call
+		if _, pending := c.results[index]; pending {
+			err = errIndexInUse
+		} else {
+			c.results[index] = resultChan
+		}
 	}
 	c.lock.Unlock()
 	return
@@ -106,9 +116,16 @@ func (c *conn) rangeAndClean(f func(index int, resultChan chan data)) {
 }
 
 func (c *conn) Transport(ctx context.Context, request []byte) (response []byte, err error) {
-	index := int(atomic.AddInt32(&c.counter, 1) & 0x7fff)
+	var index int
 	resultChan := make(chan data, 1)
-	if err = c.store(index, resultChan); err != nil {
+	for i := 0; i <= 0x7fff; i++ {
+		// a number that a pending call still holds is skipped
+		index = int(atomic.AddInt32(&c.counter, 1) & 0x7fff)
+		if err = c.store(index, resultChan); err != errIndexInUse {
+			break
+		}
+	}
+	if err != nil {
 		return nil, err
 	}
 	select {
